@@ -516,6 +516,15 @@ def s2_times_in_chunks(ctx):
     e = fi.expand(rets[-1].value)
     ss = [c for c in ast.walk(e) if isinstance(c, ast.Call) and dotted(c.func) in ('np.searchsorted', 'searchsorted') or
           (isinstance(c, ast.Call) and q.method_name(c) == 'searchsorted')]
+    # a binary search IN the times (the kept bounds located among the spike times) is only right when the times it is given are sorted; the times of a cluster's spikes
+    # come in spike-id order and nothing makes them non-decreasing: recognised wrong form
+    for c_ in [c for c in fi.calls() if dotted(c.func) in ('np.searchsorted', 'searchsorted') or q.method_name(c) == 'searchsorted']:
+        hay_ = q.arg(c_, 0, 'a') if dotted(c_.func) else c_.func.value
+        hx = fi.expand(hay_) if hay_ is not None else None
+        if hx is not None and Pat().any([tp, 'np.asarray(%s)' % tp, 'np.asarray(%s, REST)' % tp, 'np.array(%s)' % tp, 'np.atleast_1d(%s)' % tp, '%s.ravel()' % tp], hx):
+            ctx.violated('C17.S2', fi, c_, '`%s` searches IN the spike times: that assumes they are sorted, but the times handed over are those of a cluster\'s spikes in spike-id order; '
+                         'out-of-order times put spikes of a dropped chunk inside the selection and kept ones outside' % unparse(c_)[:80])
+            return
     if len(ss) != 1:
         ctx.undecided('C17.S2', fi, 'membership is not computed with one searchsorted', rets[-1])
         return
